@@ -78,6 +78,24 @@ CHECKS = {
               "variants; on the implementation alone: file vs programmatic fields and the stream compressed under each."),
         note=TB_COMMON + "strtol/atof trusted; the INI lexer is tied by the differential check (not modelled); PASTRI configurations not modelled.",
         technique="Coq proof over a token-level model of the configuration ladder + differential check with rendered configuration files"),
+    "C06": dict(
+        category="proof", design_ref="DESIGN.md §4 C06",
+        text=("Proved: the parameter block codec (flag bits, two 16-bit fields, mode/type byte with the 0x0f masks, the per-mode bound fields, "
+              "solution id, interval count, min/max) decodes every field to what the writer stored, for all ten element types and ten bound modes "
+              "(finite sweeps for the packed bytes lifted to all values, byte-list lemmas for the rest). On every run SZ_getMetadata is compared "
+              "field by field with the model's header walk on regular, constant and lossless streams of every type, the block is re-encoded by the "
+              "model and must equal the implementation's bytes, and the reported fields are judged against the call's arguments and the "
+              "reconstruction error; four listed finding classes are subtracted by predicate."),
+        note=TB_COMMON + "The offsets theorem for the header walk is not proved (model compared only); PSNR/NORM derived bounds rely on libm.",
+        technique="Coq proof of the parameter-block codec + differential check of SZ_getMetadata + oracle against call arguments"),
+    "C04": dict(
+        category="proof", design_ref="DESIGN.md §4 C04",
+        text=("Proved: every byte of the parameter block (shared by all stream kinds) is assigned for every bound mode the writer handles, and its "
+              "length is the source's MetaDataByteLength(_double); an unlisted mode is a refuted statement. Checked on the implementation: each "
+              "(array, arguments, configuration) triple is compressed and decompressed in four fresh processes with different heap fill patterns, "
+              "arena settings and ASLR on/off; stream bytes and reconstructions must be identical."),
+        note=TB_COMMON + "Only the parameter-block serializer is covered by the all-written theorem; the remaining serializers by run-to-run comparison (exploration). zlib/zstd determinism trusted.",
+        technique="Coq proof (all positions written) + multi-process differential under heap/ASLR perturbation"),
 }
 
 NOT_YET = {}
